@@ -128,7 +128,7 @@ def one_connect(sess, cfg, maxdata, strays, stats, rng, real_keys=None, kid_base
         def cb(dev):
             cb_calls.append(sess.dev.available)
             raise RuntimeError("auth callback failure (deliberate)")
-    kw = {"rsa_keys": list(keys) if (nkeys or rng.random() < 0.5) else None, "auth_timeout_s": auth_timeout, "transport_timeout_s": rng.choice([None, 1.0, 2.0]), "read_timeout_s": 2.0}
+    kw = {"rsa_keys": (tuple(keys) if (len(keys) * 7 + int(maxdata) + (1 if cb is not None else 0)) % 3 == 0 else list(keys)) if (nkeys or rng.random() < 0.5) else None, "auth_timeout_s": auth_timeout, "transport_timeout_s": rng.choice([None, 1.0, 2.0]), "read_timeout_s": 2.0}
     if cb is not None:
         kw["auth_callback"] = cb
     tfault = cfg.get("tfault")
